@@ -55,8 +55,10 @@ func genC07(t *rapid.T) c06Case {
 		c.RPCs = append(c.RPCs, p)
 	}
 	if rapid.IntRange(0, 3).Draw(t, "points") > 0 {
+		// the windows right before a terminal packet is written are listed twice: they are where a later stream could overtake
 		c.Cfg.Points = rapid.SliceOfNDistinct(rapid.SampledFrom(append([]string{"manager.acquireSemaphore.acquired", "manager.newStream.beforeSet", "stream.checkFinished",
-			"stream.RawWrite.beforeWriteLock", "conn.NewStream.afterNewClientStream", "conn.Invoke.afterNewClientStream"}, streamPoints...)), 1, 4, func(s string) string { return s }).Draw(t, "pts")
+			"stream.RawWrite.beforeWriteLock", "conn.NewStream.afterNewClientStream", "conn.Invoke.afterNewClientStream",
+			"stream.SendCancel.beforeSend", "stream.Close.beforeSend", "stream.CloseSend.beforeSend", "stream.SendError.beforeSend"}, streamPoints...)), 1, 4, func(s string) string { return s }).Draw(t, "pts")
 		c.Cfg.PointLimit = 12
 	}
 	c.Concurrent = true
